@@ -451,6 +451,20 @@ func abstractRun(a *absCtx, r *ScenarioRun, drvDir string) ([]map[string]any, er
 		drvDir = r.Drv
 	}
 	cfgs := resolveCfgs(s.Configs, r.Dir)
+	// a Dir option that goes through a symbolic link of the scenario names the directory behind it:
+	// the contract speaks about files, and the projection shows them where they are
+	for _, f := range s.Init {
+		if f.Role == "symlink" && f.Owner == "dir" {
+			link := filepath.Join(r.Dir, f.P)
+			target := filepath.Join(filepath.Dir(link), string(f.Content))
+			for _, c := range cfgs {
+				if c.Dir != nil && (*c.Dir == link || strings.HasPrefix(*c.Dir, link+"/")) {
+					d := target + strings.TrimPrefix(*c.Dir, link)
+					c.Dir = &d
+				}
+			}
+		}
+	}
 	var out []map[string]any
 	prog := append([]string{}, s.Program...)
 	sort.Strings(prog)
